@@ -24,13 +24,14 @@ Hypothesis Hrefs : forall o' k, o' ∈ Y -> k ∈ refs o' -> (exists o, o ∈ X 
 Hypothesis HYp : forall o1 o2 k, o1 ∈ Y -> o2 ∈ Y -> k ∈ provides o1 -> k ∈ provides o2 -> o1 = o2.
 Hypothesis HYr : forall o1 o2 k, o1 ∈ Y -> o2 ∈ Y -> k ∈ refs o1 -> k ∈ refs o2 -> o1 = o2.
 Hypothesis Hfresh : forall k o, fresh k -> obj_in c o -> k ∉ provides o /\ k ∉ refs o.
+Hypothesis Hfresh_new : forall k, fresh k -> chans c !! k = None.
 Hypothesis Hdang : forall o k, o ∈ X -> k ∈ provides o ->
-  (exists o', o' ∈ Y /\ k ∈ provides o') \/ ((exists o2, o2 ∈ X /\ k ∈ refs o2) /\ forall o', o' ∈ Y -> k ∉ refs o').
+  (exists o', o' ∈ Y /\ k ∈ provides o') \/
+  ((forall o2, obj_in c o2 -> k ∈ refs o2 -> o2 ∈ X) /\ forall o', o' ∈ Y -> k ∉ refs o').
 Hypothesis Hfreshprov : forall o' k, o' ∈ Y -> k ∈ refs o' -> fresh k -> exists o'', o'' ∈ Y /\ k ∈ provides o''.
 Hypothesis Hclosed : forall k st', chans c' !! k = Some st' -> ch_closed st' = true ->
-  ch_buf st' = None /\ (forall o', o' ∈ Y -> k ∉ provides o' /\ k ∉ refs o') /\
-  ((exists st, chans c !! k = Some st /\ ch_closed st = true) \/
-   (forall o, obj_in c o -> o ∉ X -> k ∉ provides o /\ k ∉ refs o)).
+  (exists st, chans c !! k = Some st /\ ch_closed st = true /\ ch_buf st' = ch_buf st) \/
+  (ch_buf st' = None /\ forall o', obj_in c' o' -> k ∉ provides o' /\ k ∉ refs o').
 Hypothesis Hrank : forall rk M, rank_ok c rk M -> exists rk' M', rank_ok c' rk' M'.
 
 Theorem topo_rewrite : Topo c'.
@@ -59,21 +60,97 @@ Proof.
   - intros o' k Ho' Hk.
     assert (Hvia : forall o0, obj_in c o0 -> k ∈ refs o0 ->
               (exists o'', obj_in c' o'' /\ k ∈ provides o'') \/
-              ((exists o2, o2 ∈ X /\ k ∈ refs o2) /\ forall o'', o'' ∈ Y -> k ∉ refs o'')).
+              ((forall o2, obj_in c o2 -> k ∈ refs o2 -> o2 ∈ X) /\ forall o'', o'' ∈ Y -> k ∉ refs o'')).
     { intros o0 Ho0 Hk0. destruct (topo_ref_prov c Ht o0 k Ho0 Hk0) as (p & Hp & Hkp).
       destruct (HXdec p Hp) as [Hpx|Hpx].
       - destruct (Hdang _ _ Hpx Hkp) as [(o'' & Hy'' & Hk'')|H]; [left; eauto|right; exact H].
       - left. exists p. split; [by apply Hkeep|done]. }
     destruct (Hin' _ Ho') as [[Ho Hn]|Hy].
-    + destruct (Hvia _ Ho Hk) as [H|[(o2 & Hx2 & Hk2) _]]; [exact H|].
-      exfalso. assert (o' = o2) by (eapply (topo_ref_unique c Ht); eauto). subst. contradiction.
+    + destruct (Hvia _ Ho Hk) as [H|[Hx2 _]]; [exact H|].
+      exfalso. apply Hn. by apply Hx2.
     + destruct (Hrefs _ _ Hy Hk) as [(o & Hox & Hko)|Hf].
       * destruct (Hvia _ (HX _ Hox) Hko) as [H|[_ Hno]]; [exact H|]. exfalso. exact (Hno _ Hy Hk).
       * destruct (Hfreshprov _ _ Hy Hk Hf) as (o'' & Hy'' & Hk''). exists o''. split; [by apply HY|done].
-  - intros k st' Hk Hcl. destruct (Hclosed k st' Hk Hcl) as (Hb & Hyn & Hold). split; [done|].
-    intros o' Ho'. destruct (Hin' _ Ho') as [[Ho Hn]|Hy]; [|by apply Hyn].
-    destruct Hold as [(st & Hst & Hclst)|Hold]; [|by apply Hold].
-    exact (proj2 (topo_closed c Ht k st Hst Hclst) o' Ho).
+  - intros k st' Hk Hcl. destruct (Hclosed k st' Hk Hcl) as [(st & Hst & Hclst & Hb)|[Hb Hno]]; [|by split].
+    destruct (topo_closed c Ht k st Hst Hclst) as [Hbn Hno]. split; [congruence|].
+    intros o' Ho'. destruct (Hin' _ Ho') as [[Ho Hn]|Hy]; [by apply Hno|]. split.
+    + intros Hk'. destruct (Hprov _ _ Hy Hk') as [(o & Hox & Hko)|Hf].
+      * by destruct (Hno o (HX _ Hox)).
+      * rewrite (Hfresh_new _ Hf) in Hst. discriminate.
+    + intros Hk'. destruct (Hrefs _ _ Hy Hk') as [(o & Hox & Hko)|Hf].
+      * by destruct (Hno o (HX _ Hox)).
+      * rewrite (Hfresh_new _ Hf) in Hst. discriminate.
   - destruct (topo_rank c Ht) as (rk & M & H). destruct (Hrank rk M H) as (rk' & M' & H'). exists rk', M'. exact H'.
 Qed.
 End Rewrite.
+
+(* ------------------------------------------------------------------ Part 2: the invariant carried with Topo *)
+Require Import Grits.proofs.RtSubst Grits.proofs.StepErrors Grits.proofs.RtSafety Grits.proofs.TopoLin.
+
+Definition msg_lin (k : cid) (m : msg) : Prop := NoDup (refs (OMsg k m)).
+
+Record LinCfg (c : config) : Prop := {
+  lc_procs : forall p pp, procs c !! p = Some pp -> affr None (pr_body0 pp);
+  lc_msgs : forall k st m, chans c !! k = Some st -> ch_buf st = Some m -> msg_lin k m
+}.
+
+Lemma elem_In {A} (x : A) l : x ∈ l <-> In x l.
+Proof. apply elem_of_list_In. Qed.
+
+Lemma single_provs pp : pr_provs pp <> [] -> multi pp = false -> exists n, pr_provs pp = [n].
+Proof.
+  unfold multi. destruct (pr_provs pp) as [|n [|n' r]]; simpl; try done; eauto.
+Qed.
+
+(* a sender turns into its message: the message provides and refers to what the process did *)
+Lemma send_objs D pp k m :
+  pr_provs pp <> [] -> action_of Async D pp = ASend k m ->
+  (forall j, j ∈ refs (OMsg k m) -> j ∈ form_chans (pr_body0 pp)) /\
+  (forall j, j ∈ provides (OMsg k m) -> j ∈ cids_of (pr_provs pp)) /\
+  (m_rule m <> RGC -> forall j, j ∈ cids_of (pr_provs pp) -> j ∈ provides (OMsg k m)) /\
+  (affr None (pr_body0 pp) -> msg_lin k m).
+Proof.
+  intros Hne Ha.
+  assert (Hself : forall n, pr_provs pp = [n] -> self_name_of pp = n /\ self_chan pp = chan n).
+  { intros n E. unfold self_name_of, self_chan, prov0. by rewrite E. }
+  assert (Hlin : forall l, affr None (pr_body0 pp) -> pnames None (pr_body0 pp) = [l] -> NoDup (kcs l)).
+  { intros l Haf E. apply affr_aff in Haf. unfold aff in Haf. rewrite E in Haf. apply NoDup_kcs.
+    by apply Forall_inv in Haf. }
+  unfold action_of in Ha. unfold msg_lin.
+  destruct (pr_body0 pp) as [to pay cont|pay cont from k0|to l cont|from bs|x b k0|c0|c0 k0|to from d|x y from k0|fn args pt|to cont|x from k0|c0 k0|l k0] eqn:Eb;
+    simpl in Ha;
+    repeat match type of Ha with
+           | (if ?b then _ else _) = _ => destruct b eqn:?
+           | match ?x with _ => _ end = _ => destruct x eqn:?
+           end;
+    try discriminate;
+    try (unfold internal in Ha; destruct (multi pp); discriminate);
+    try (unfold recv_on in Ha; repeat match type of Ha with
+           | (if ?b then _ else _) = _ => destruct b
+           | match ?x with _ => _ end = _ => destruct x
+           end; discriminate).
+  all: try (injection Ha as <- <-).
+  all: try (pose proof Ha as Ha'; unfold send_on in Ha'; destruct (multi pp) eqn:Em; [discriminate|];
+            destruct (single_provs pp Hne Em) as [n En]; destruct (Hself n En) as [Hsn Hsc];
+            apply send_on_chan in Ha as [Ht ->]).
+  all: cbn [refs provides m_rule m_c1 m_c2 m_provs form_chans].
+  all: rewrite ?En, ?Hsn; cbn [cids_of flat_map app].
+  all: try (rewrite Hsc in Ht).
+  all: repeat match goal with H : chan _ = Some _ |- _ => unfold name_chans at 1; rewrite H end.
+  all: try (split; [set_solver|split; [set_solver|split; [set_solver|]]]).
+  all: try (intros _; repeat constructor; simpl; tauto).
+  all: try (intros Haf; specialize (Hlin _ Haf eq_refl); rewrite !kcs_app, !kcs_uname in Hlin;
+            first [exact Hlin | apply NoDup_app_inv in Hlin as (_ & Hlin & _); exact Hlin]).
+  - (* send to<pay, self> *)
+    assert (E : name_chans to = [k]) by (unfold name_chans; by rewrite Ht).
+    split; [rewrite E; set_solver|]. split; [unfold name_chans; rewrite app_nil_r; done|].
+    split; [intros _; unfold name_chans; rewrite app_nil_r; done|].
+    intros Haf. specialize (Hlin _ Haf eq_refl). rewrite !kcs_app, !kcs_uname, E in Hlin.
+    rewrite app_assoc in Hlin. apply NoDup_app_inv in Hlin as (Hlin & _). exact Hlin.
+  - (* forward *)
+    assert (E : name_chans from = [c]).
+    { match goal with H : chan from = Some _ |- _ => unfold name_chans; by rewrite H end. }
+    destruct d; cbn [refs provides m_rule m_provs]; rewrite E.
+    + split; [set_solver|]. split; [set_solver|]. split; [done|]. intros _. repeat constructor; simpl; tauto.
+    + split; [set_solver|]. split; [set_solver|]. split; [set_solver|]. intros _. repeat constructor; simpl; tauto.
+Qed.
